@@ -38,7 +38,8 @@ class FnRef:
 class Contract:
     def __init__(self, target, requires=(), ensures=(), raises=(), on_raise=None, modifies=None,
                  returns=None, loops=None, params=None, max_paths=4000, pure_spec=None,
-                 no_return=False, props=(), ghost_asserts=None, notes="", assumed=False):
+                 no_return=False, props=(), ghost_asserts=None, notes="", assumed=False,
+                 locals=None, ghost_modifies=(), decreases=None):
         self.target = target
         self.requires = list(requires)
         self.ensures = list(ensures)
@@ -55,6 +56,9 @@ class Contract:
         self.ghost_asserts = ghost_asserts or {}
         self.notes = notes
         self.assumed = assumed   # contract used at call sites but not verified (trusted)
+        self.locals = locals or {}   # type specs of local variables (lists) where needed
+        self.ghost_modifies = list(ghost_modifies)
+        self.decreases = decreases   # integer measure over the parameters (recursion variant)
 
 
 class Seq:
@@ -263,8 +267,16 @@ class World:
     def theory_saturate(self, it, formulas, transient=False):
         if it.silent:
             return
-        for t in self.theories:
-            t.saturate(it, formulas)
+        pending = list(formulas)
+        for _round in range(4):
+            new = []
+            for t in self.theories:
+                r = t.saturate(it, pending)
+                if r:
+                    new.extend(r)
+            if not new:
+                break
+            pending = new
 
     def theory_snapshot(self, it):
         return [t.snapshot(it) for t in self.theories]
@@ -569,6 +581,21 @@ class World:
                 if q.endswith("." + name) and con.modifies:
                     attrs |= {m.split(".")[-1] for m in con.modifies}
         return attrs
+
+    def callee_ghost_modifies(self, it, calls):
+        out = set()
+        for c in calls:
+            f = c.func
+            name = f.attr if isinstance(f, ast.Attribute) else (f.id if isinstance(f, ast.Name) else None)
+            if name is None:
+                continue
+            v = it.st.env.get(name)
+            if isinstance(v, VFunc) and v.builtin == "callback":
+                out.add(v.recv.obj[1])
+            for q, con in self.contracts.items():
+                if q.endswith("." + name) and con.ghost_modifies:
+                    out |= set(con.ghost_modifies)
+        return out
 
     def mutated_lists(self, it, calls):
         out = set()
